@@ -11,7 +11,7 @@ META = {
     "level": "translation_validation",
     "engine": "E1 artifact-level SMT: written-then-read circuit proved equal to the original at every output and blackbox input pin for all valuations of inputs, blackbox outputs (Kleene dual-rail when a constant x is present)",
     "hashseeds": {"quick": [0, 1], "thorough": [0, 1, 2, 3, 4, 5, 6, 7]},
-    "shards": {"quick": 8, "thorough": 2},
+    "shards": {"quick": 8, "thorough": 4},
     "bounds": {
         "quick": "F-unit K<=5 + type pairs, F-shape, F-bb (connected, unconnected and constant-driven pins, back-to-back boxes), constants 0/1/x, escaped identifiers, outputs that are inputs/constants, 30 random DAGs; behavioral in {False, True}; string round trip and to_file/from_file round trip",
         "thorough": "same + 300 random DAGs + bundled c17/c432/s27, 8 hash seeds",
